@@ -24,7 +24,7 @@
 (*                                                                             *)
 (* Part 3 - the C11 family catalogue (SPECIFICATION CSpec) replayed by the     *)
 (* harness at real size.                                                       *)
-EXTENDS Proofs
+EXTENDS Proofs, ProofFamilies
 
 CONSTANTS Sys,   \* the systems to classify
           Wide   \* larger simulated domains (thorough tier)
@@ -354,32 +354,7 @@ FalseStatements ==
 (* prover: "lib" = the library's own prover run on the bad witness, "built" = a transcript                      *)
 (* the harness builds with the prover's algorithm and out-of-range coins so that every equation holds and only  *)
 (* that bound fails; sizes = how far outside; demand: "reject" (the property demands it) or "record".           *)
-Families ==
-  { [sys |-> "sch",   family |-> "wrong_dlog",          trips |-> "eq",              prover |-> "lib",   sizes |-> <<"plus1", "neg", "rand">>],
-    [sys |-> "schv",  family |-> "wrong_dlog",          trips |-> "eq",              prover |-> "lib",   sizes |-> <<"plus1", "rand", "wrongR">>],
-    [sys |-> "dln",   family |-> "wrong_dlog",          trips |-> "eq",              prover |-> "lib",   sizes |-> <<"plus1", "rand">>],
-    [sys |-> "dln",   family |-> "h2_outside_group",    trips |-> "eq",              prover |-> "lib",   sizes |-> <<"nonresidue", "minus_h2", "random_unit">>],
-    [sys |-> "dln",   family |-> "iteration_unchecked", trips |-> "eq",              prover |-> "built", sizes |-> <<"first", "middle", "last">>],
-    [sys |-> "pai",   family |-> "iteration_unchecked", trips |-> "eq",              prover |-> "built", sizes |-> <<"first", "middle", "last">>],
-    [sys |-> "mod",   family |-> "iteration_unchecked_X", trips |-> "eqX",           prover |-> "built", sizes |-> <<"first", "middle", "last">>],
-    [sys |-> "mod",   family |-> "iteration_unchecked_Z", trips |-> "eqZ",           prover |-> "built", sizes |-> <<"first", "middle", "last">>],
-    [sys |-> "pai",   family |-> "shares_factor_with_totient", trips |-> "eq",       prover |-> "built", sizes |-> <<"p_divides_q_minus_1">>],
-    [sys |-> "pai",   family |-> "small_prime_factor",  trips |-> "no_small_factor", prover |-> "lib",   sizes |-> <<"3", "5", "997">>],
-    [sys |-> "mod",   family |-> "prime",               trips |-> "N_composite",     prover |-> "built", sizes |-> <<"3mod4">>],
-    [sys |-> "mod",   family |-> "even",                trips |-> "N_odd_gt1",       prover |-> "built", sizes |-> <<"2P">>],
-    [sys |-> "mod",   family |-> "prime_power",         trips |-> "eqZ",             prover |-> "built", sizes |-> <<"P^2", "P^3">>],
-    [sys |-> "mod",   family |-> "not_blum",            trips |-> "eqX",             prover |-> "lib",   sizes |-> <<"P=1mod4", "both=1mod4", "three_primes">>],
-    [sys |-> "fac",   family |-> "small_factor",        trips |-> "z2_range",        prover |-> "lib",   sizes |-> <<"16bit", "64bit", "200bit">>],
-    [sys |-> "fac",   family |-> "z_beyond",            trips |-> "z1_range",        prover |-> "built", sizes |-> <<"plus0", "plus1", "far">>],
-    [sys |-> "alice", family |-> "plaintext_beyond_q3", trips |-> "s1_le_q3",        prover |-> "lib",   sizes |-> <<"q3+1", "2q3", "q4", "N-1">>],
-    [sys |-> "alice", family |-> "s1_beyond",           trips |-> "s1_le_q3",        prover |-> "built", sizes |-> <<"plus1", "plus2", "far">>],
-    [sys |-> "bob",   family |-> "multiplier_beyond_q3", trips |-> "s1_le_q3",       prover |-> "lib",   sizes |-> <<"q3+1", "2q3", "q4", "far">>],
-    [sys |-> "bob",   family |-> "mask_beyond_q7",      trips |-> "t1_le_q7",        prover |-> "lib",   sizes |-> <<"q7+1", "2q7", "far">>],
-    [sys |-> "bob",   family |-> "s1_beyond",           trips |-> "s1_le_q3",        prover |-> "built", sizes |-> <<"plus1", "far">>],
-    [sys |-> "bob",   family |-> "t1_beyond",           trips |-> "t1_le_q7",        prover |-> "built", sizes |-> <<"plus1", "far">>],
-    [sys |-> "bobwc", family |-> "multiplier_beyond_q3", trips |-> "s1_le_q3",       prover |-> "lib",   sizes |-> <<"q3+1", "2q3", "far">>],
-    [sys |-> "bobwc", family |-> "mask_beyond_q7",      trips |-> "t1_le_q7",        prover |-> "lib",   sizes |-> <<"q7+1", "2q7", "far">>],
-    [sys |-> "bobwc", family |-> "point_mismatch",      trips |-> "eqG",             prover |-> "lib",   sizes |-> <<"plus1", "neg", "rand">>] }
+(* Families: see ProofFamilies.tla (shared with ProofHistory.tla) *)
 
 (* the guard or equation a family trips must be one the model knows, and (guards) one it found necessary *)
 FamilyOK(f) ==
